@@ -239,6 +239,57 @@ def run_rt3d(case):
     return {'nontrivial': len(set(dims)) > 1, 'labels': ['unequal-dims'] if len(set(dims)) > 1 else []}
 
 
+# ----------------------------------------------------------------------------- every voxel edge of every grid size (complete enumeration)
+def edge_size(tier):
+    return 384 if tier == 'quick' else 2048
+
+
+def edge_case(tier, idx):
+    return {'n': idx + 1, 'axis': idx % 3}
+
+
+def run_edges(case):
+    """grid size n along one axis: samples exactly on every edge k/n, one ulp below and above it, and at every voxel centre"""
+    from gemdat.volume import trajectory_to_volume
+
+    n, ax = case['n'], case['axis']
+    Lc = 10.0
+    res = Lc / (n + 0.5)
+    xs = []
+    for k in range(n):
+        e = k / n
+        xs += [e, float(np.nextafter(e, 1.0)), (k + 0.5) / n]
+        if k > 0:
+            xs.append(float(np.nextafter(e, 0.0)))
+    xs.append(float(np.nextafter(1.0, 0.0)))
+    coords = np.full((1, len(xs), 3), 0.5)
+    coords[0, :, ax] = xs
+    lengths = [Lc * 0.9] * 3  # the other two axes get one voxel fewer than n + ... irrelevant: only `ax` is examined
+    lengths[ax] = Lc
+    t = cases.trajectory(coords, ['Li'] * len(xs), np.diag(lengths), 1e-15, 300.0)
+    vol = gcall(trajectory_to_volume, t, resolution=res)
+    data = np.asarray(vol.data)
+    if data.shape[ax] != n:
+        raise Violation('grid-size', f'{data.shape[ax]} voxels for edge {Lc} and resolution {res!r}; floor(L/res) = {n}')
+    if int(data.sum()) != len(xs):
+        raise Violation('sum-conserved', f'{int(data.sum())} != {len(xs)}')
+    got = data.sum(axis=tuple(i for i in range(3) if i != ax))
+    strict = np.zeros(n, dtype=int)
+    allowed = np.zeros(n, dtype=int)
+    for x in xs:
+        c, _near = axis_candidates(x, n, True)
+        if len(c) == 1:
+            strict[next(iter(c))] += 1
+        else:
+            for b in c:
+                allowed[b] += 1
+    rem = got - strict
+    if (rem < 0).any() or (rem > allowed).any():
+        b = int(np.argwhere((rem < 0) | (rem > allowed))[0][0])
+        raise Violation('voxel-is-floor-of-coordinate', f'grid size {n} (axis {ax}): voxel {b} holds {int(got[b])} samples, exact floor() counting gives {int(strict[b])} (+{int(allowed[b])} within the edge band)')
+    return {'nontrivial': True, 'count': len(xs), 'labels': ['pow2' if is_pow2(n) else 'other']}
+
+
 SUBS = [
     Sub(name='trajectory-histogram', kind='hyp', run=run_traj, strategy=traj_cases,
         rule='1-4 (8) frames x 1-3 (5) atoms in all lattices; resolution free in (0.05 Lmin, Lmin] or aimed at a grid size (power of two for exact edges); coordinates uniform, exactly on voxel edges k/n, one ulp beside them, in the last voxel',
@@ -249,4 +300,7 @@ SUBS = [
     Sub(name='voxel-roundtrip-3d', kind='hyp', run=run_rt3d, strategy=rt3d_cases,
         rule='random unequal 3-D grids up to 300^3 with random voxel triples; centre, round trip, Cartesian centre, voxel size',
         n={'quick': 200, 'thorough': 3000}, shards={'quick': 2, 'thorough': 8}),
+    Sub(name='every-edge-enum', kind='enum', run=run_edges, size=edge_size, case_at=edge_case, exhaustive=True,
+        rule='complete enumeration: for every grid size n <= 384 (quick) / 2048 (thorough), samples exactly on every voxel edge k/n, one ulp below and above it, at every voxel centre and at the last representable coordinate below 1, binned through trajectory_to_volume (each sample is one evaluation)',
+        shards={'quick': 16, 'thorough': 16}),
 ]
